@@ -178,3 +178,54 @@ def key_triple_forwarded(model, rep, rule, module_names, floor):
                       f"`{src(c)[:80]}` passes `{src(a_t)}` but " + (f"`{src(a_c)}`" if a_c is not None else "nothing") + f" for covers (expected `{want}`): "
                       "for RRSIG/SIG rdatasets the callee then addresses the rdataset with covers NONE, i.e. a different one (stale duplicates, lost deletes)", stmt=f"triple {name} <- {want}")
     rep.floor(rule + "-triples", n, floor)
+
+
+def name_slot_agreement(model, rep, rule, scope, floor, consequence):
+    """A bare local name passed POSITIONALLY where the callee has a parameter of that very name at ANOTHER position is in the wrong slot.
+
+    `scope(caller FuncInfo, callee name, candidate callee FuncInfos) -> filtered candidates or None` selects the call sites of one protocol family (wire codecs, the
+    transport functions); a site is judged only when all candidates agree on the parameter name at the argument's position (else it is ambiguous and skipped).
+    Receivers that are constructor calls are resolved to their class first."""
+    import collections
+    byname = collections.defaultdict(list)
+    for g in model.all_functions():
+        byname[g.node.name].append(g)
+
+    def pos_params(g):
+        a = g.node.args
+        ps = [x.arg for x in a.posonlyargs + a.args]
+        return ps[1:] if ps and ps[0] in ("self", "cls") else ps
+
+    n = 0
+    for f in sorted(model.all_functions(), key=lambda g: g.qualname):
+        for c in ast.walk(f.node):
+            if not isinstance(c, ast.Call) or any(isinstance(a, ast.Starred) for a in c.args) or not c.args:
+                continue
+            nm = c.func.attr if isinstance(c.func, ast.Attribute) else (c.func.id if isinstance(c.func, ast.Name) else None)
+            if nm is None or nm not in byname:
+                continue
+            cands = byname[nm]
+            if isinstance(c.func, ast.Attribute) and isinstance(c.func.value, ast.Call):
+                try:
+                    tgt = model.resolve_expr(f, c.func.value.func)
+                except Exception:
+                    tgt = None
+                if tgt in model.classes:
+                    mm = model.lookup_method(model.classes[tgt], nm)
+                    if mm is not None:
+                        cands = [mm]
+            cands = scope(f, nm, [g for g in cands if len(pos_params(g)) >= len(c.args)])
+            if not cands:
+                continue
+            allp = set().union(*[set(pos_params(g)) for g in cands])
+            for i, a in enumerate(c.args):
+                if not isinstance(a, ast.Name) or a.id not in allp:
+                    continue
+                at = {pos_params(g)[i] for g in cands}
+                if len(at) != 1:
+                    continue
+                n += 1
+                slot = next(iter(at))
+                rep.check(a.id == slot, rule, f.qualname, where(f, c), f"`{a.id}` is passed as `{slot}` of {nm}()",
+                          f"`{src(c)[:80]}` passes `{a.id}` in the position of the parameter `{slot}` although {nm}() has a parameter `{a.id}` elsewhere: {consequence}", stmt=f"slot {nm}.{slot} <- {a.id}")
+    rep.floor(rule + "-slots", n, floor)
